@@ -12,6 +12,8 @@ func init() {
 			c.ruleAlloc("R-ALLOC", 1<<17, "pkg/scale")
 			c.ruleLenSign("pkg/scale")
 			c.ruleLenConv("pkg/scale")
+			c.ruleFreshDecode()
+			c.min("R-FRESHDECODE", 2)
 			c.min("R-LENSIGN", 4)
 			c.min("R-ALLOC", 2)
 			c.ruleCompactCanon("R-COMPACT/canon", "pkg/scale", "(*decodeState).decodeUint", "(*decodeState).decodeSmallInt")
@@ -38,6 +40,8 @@ func init() {
 			c.load(append([]string{"pkg/scale"}, allVDTDirs...)...)
 			c.ruleFieldOrderTotal()
 			c.min("R-TOTALORDER", 1)
+			c.ruleFreshDecode()
+			c.min("R-FRESHDECODE", 2)
 			c.ruleCompactWidths("R-COMPACT/widths")
 			c.min("R-COMPACT/widths", 5)
 			c.ruleCompactEnc("R-COMPACT/enc")
